@@ -80,7 +80,7 @@ func (s *Sys) Reset() {
 }
 
 var menus = map[string][]string{
-	"acct":  {"bal(A0)", "bal(A1)", "touch(A1)", "nonce(A0)", "store(A0)", "code(A1)", "suicide(A0)", "create(A1)", "log", "refund", "preimage"},
+	"acct":  {"bal(A0)", "bal(A1)", "touch(A1)", "nonce(A0)", "store(A0)", "code(A1)", "suicide(A0)", "create(A1)", "log", "refund", "refund-", "preimage"},
 	"val":   {"vcreate(V1)", "vdeposit(V0)", "vstatus(V0)", "vreward(V0)", "dlg+(V0)", "dlg-(V0)", "dlg+(V2)", "dlg-(V2)", "wadd", "wrem", "wremL"},
 	"mixed": {"bal(A1)", "store(A0)", "suicide(A0)", "log", "vcreate(V1)", "vdeposit(V0)", "dlg+(V0)", "dlg-(V0)", "wadd"},
 	// one storage slot across transactions: current value vs. value finalised by an earlier tx vs. value on disk
